@@ -160,7 +160,11 @@ Proof.
   induction fuel as [|f IH]; intros; cbn [feed_tasks]; [apply Quiet_refl|].
   destruct (okey_eqb (Some k) fa); [|apply IH]. destruct io; [apply Quiet_refl|].
   eapply Quiet_trans; [|apply IH].
-  destruct (cached s j); [|apply Quiet_refl]. apply Quiet_set_job. intros y. apply Q_job_set.
+  destruct (cached s j) as [x|]; [|apply Quiet_refl].
+  destruct (kind x); try (apply Quiet_set_job; intros y; apply Q_job_set).
+  eapply Quiet_trans; [|apply Quiet_set_job; intros y; apply Q_uncache].
+  eapply Quiet_trans; [|apply Quiet_set_job; intros y; apply Q_job_set].
+  destruct (ready x); [apply Quiet_refl|apply Quiet_same; reflexivity].
 Qed.
 
 Lemma Quiet_do_feeds : forall fs k fa io s, Quiet s (fst (fst (do_feeds fs k fa io s))).
@@ -322,6 +326,17 @@ Proof.
   - unfold do_join_shutdown. destruct (wlist s0); cbn [fst]; [|apply Quiet_join_exited].
     unfold mark_all_lost. apply Quiet_map_jobs. intros x.
     destruct (lost_due s0 x); [apply Q_mark_lost|apply Q_refl].
+  - unfold do_apply_q, do_apply.
+    destruct (negb (pstate s0 =? 0)); [apply Quiet_refl|].
+    destruct ((match slot with Some b => b | None => putlocks s0 end) && (LaxSem.value (sem s0) =? 0));
+      [apply Quiet_refl|]. cbn [fst].
+    eapply Quiet_trans; [|apply Quiet_same; reflexivity].
+    destruct (match slot with Some b => b | None => putlocks s0 end).
+    + eapply Quiet_trans; [apply (Quiet_same s0 (with_sem s0 (sstep' (sem s0) Acquire))); reflexivity|].
+      apply Quiet_add_job. reflexivity.
+    + apply Quiet_add_job. reflexivity.
+  - unfold do_apply_unsendable. destruct (negb (pstate s0 =? 0)); [apply Quiet_refl|].
+    destruct (_ && _); apply Quiet_refl.
 Qed.
 
 (* ------------------------------------------------------------ the invariant *)
